@@ -396,6 +396,9 @@ def run(ctx):
     leaf_lists_rule(ctx, 'R05f', 'MPS')
     accumulation_rule(ctx, 'R05e', 'MPS._get_single_cost',
                       ctx.repo.cls('MPS').methods['_get_single_cost'])
+    from .c04 import call_site_rule
+    call_site_rule(ctx, 'R05e', 'MPS._get_single_cost',
+                   ctx.repo.cls('MPS').methods['_get_single_cost'])
     r05a(ctx)
     r05b(ctx)
     r05c(ctx)
